@@ -78,6 +78,18 @@ def make_scenario(spec, seed, idx):
             body += '\n' + '\n'.join(['include pad.inc'] * n) + '\n'
             tree['files'][tree['main']] = body.replace('\n', '\r\n') if crlf else body
             tree['includes'].extend({'from': tree['main'], 'written': 'pad.inc', 'target': leaf} for _ in range(n))
+    if r.random() < 0.03:
+        # a long, perfectly legitimate chain: main -> c1.inc -> c2.inc -> ... (33-45 levels)
+        d = posixpath.dirname(tree['main'])
+        depth_n = r.randint(33, 45)
+        if not any(posixpath.basename(p).startswith('chain') for p in tree['files']):
+            for k in range(1, depth_n + 1):
+                nxt = 'include chain%d.inc\n' % (k + 1) if k < depth_n else ''
+                tree['files'][d + '/chain%d.inc' % k] = '    addi x0, x0, %d\n%s' % (k % 7, nxt)
+                tree['includes'].append({'from': (d + '/chain%d.inc' % (k - 1)) if k > 1 else tree['main'], 'written': 'chain%d.inc' % k, 'target': d + '/chain%d.inc' % k})
+            crlf = '\r\n' in tree['files'][tree['main']]
+            body = tree['files'][tree['main']].replace('\r\n', '\n').rstrip('\n') + '\ninclude chain1.inc\n'
+            tree['files'][tree['main']] = body.replace('\n', '\r\n') if crlf else body
     if r.random() < 0.2:
         add_twin(r, tree)
     if r.random() < 0.8:
